@@ -35,6 +35,7 @@ type state struct {
 // at marks the state to be on node n, for error reporting.
 func (s *state) at(node ast.Node) {
 	s.node = node
+	verifAt(node)
 }
 
 // errorf formats the error and terminates processing.
